@@ -25,13 +25,13 @@ def alloc_phase(rep, exe_impl, exe_model):
 
 
 def main(rep):
-    wk.standard_main(rep, fault=True, extra=alloc_phase, fault_monitors=["fault_reported", "recovery", "no_partial", "position_kept", "position_not_ahead", "store_immutable", "queue_form"],
+    wk.standard_main(rep, fault=True, extra=alloc_phase, fault_monitors=["fault_reported", "expected_handled", "recovery", "no_partial", "position_kept", "position_not_ahead", "store_immutable", "queue_form"],
                      known=known,
                      rule=("one failing system call at a time: every call index of the implementation's own log of the operation under test in each scenario "
-                           "family x plausible errnos of that call (open: EACCES ENOSPC EMFILE EIO ENOENT; mkdir: EACCES ENOSPC; sendfile/write: EIO ENOSPC; "
+                           "family x plausible errnos of that call (open: EACCES ENOSPC EMFILE EIO ENOENT, EEXIST at an exclusive create; mkdir: EACCES ENOSPC; sendfile/write: EIO ENOSPC; "
                            "others EIO/ENOMEM), followed by release, restart, drain; outcome, error trace, call log and disk compared with the model under the "
-                           "same fault; every case is non-trivial"))
+                           "same fault; the expected conditions (ENOENT/EACCES at the open of the source, EEXIST at the exclusive create) must not end the operation in an error; every case is non-trivial"))
 
 
 def replay(rep, path):
-    return wk.replay_world(rep, path, ["fault_reported", "recovery", "no_partial", "store_immutable"])
+    return wk.replay_world(rep, path, ["fault_reported", "expected_handled", "recovery", "no_partial", "store_immutable"])
